@@ -11,7 +11,7 @@ PolBudget(n) == [kind |-> "budget", n |-> n, allow |-> {}]
 PolScript(S) == [kind |-> "script", n |-> 0, allow |-> S]
 
 Cfgs(hostseqs, pols, outs, ks, idems, cancels) ==
-  {[hosts |-> hs, pol |-> p, outs |-> outs, k |-> k, idem |-> i, cancel |-> cn] :
+  {[hosts |-> hs, pol |-> p, outs |-> outs, k |-> k, idem |-> i, cancel |-> cn, wire |-> FALSE] :
      hs \in hostseqs, p \in pols, k \in ks, i \in idems, cn \in cancels}
 
 \* ---- exhaustive property configurations
